@@ -189,8 +189,12 @@ class C20(HistoryCheck):
         if op["op"] == "deepcopy" and ctx.src.chance(0.6):
             op["wrap"] = ctx.src.randint(1, 3)  # deepcopy of an instance nested in containers to depth 3
         if op["op"] in ("new", "call", "deepcopy", "del", "set") and ctx.src.chance(self.P_PROBE[ctx.tier]):
+            # (an in-place transform is re-applied by every re-execution of the probe -- `tolist` nests the value one level
+            # deeper each time --: such a call is probed at <= 24 stratified lines in either tier, or a later copy of the
+            # value exceeds the interpreter's recursion limit; found by the thorough run, 1 run in 27 000)
+            growing = op["op"] == "call" and op["m"].startswith("transform") and op.get("kw", {}).get("_inplace")
             op["probe"] = {"kind": ctx.src.choice(["interrupt", "interrupt", "memory"]),
-                           "lines": "all" if ctx.tier == "thorough" else "strat"}
+                           "lines": "all" if (ctx.tier == "thorough" and not growing) else "strat"}
         return op
 
     def _exec(self, ctx, world, op, idx, plan, count_lines=False, commit=False):
